@@ -5,11 +5,12 @@ from ..core import Case
 class G:
     """tracks the next index so that most appends are contiguous"""
 
-    def __init__(self, rng, start=1, pre=0, split=0):
+    def __init__(self, rng, start=1, pre=0, split=0, geom=None):
         self.rng, self.start, self.pre, self.split = rng, start, pre, split
         self.nxt = start
         self.term = max(pre, 1)
-        self.ops = ["open %d %d %d" % (start, pre, split)]
+        self.interval = geom[0] if geom else 128
+        self.ops = ["open %d %d %d%s" % (start, pre, split, " geom=%d,%d" % geom if geom else "")]
 
     def size(self, mode):
         r = self.rng
@@ -54,7 +55,7 @@ def cut_points(g):
     """interesting cut points for a log of g.nxt - g.start entries"""
     n = g.nxt - g.start
     pts = {g.start, g.start + 1, g.nxt - 1, g.nxt, g.nxt + 1, g.start + n // 2}
-    for b in range(128, n + 1, 128):
+    for b in range(g.interval, n + 1, g.interval):
         pts |= {g.start + b - 1, g.start + b, g.start + b + 1}
     return sorted(p for p in pts if p >= max(g.start - 1, 0))
 
@@ -112,6 +113,29 @@ def gen_truncation(rng, tier):
         g.check(False)
         g.check(True)
         cases.append(Case("rand-%d" % i, g.ops, True, "random"))
+    # the same with a small index step (hook: geometry of new files): every few records an index entry, the index
+    # area fills up after a dozen entries (appends answered `full` are not acknowledged)
+    for i in range(600 if big else 60):
+        geom = rng.choice([(4, 64), (4, 4096), (8, 128), (3, 100), (2, 4096)])
+        g = G(rng, start=rng.choice([1, 1, 7, 500]), pre=rng.choice([0, 2]), geom=geom)
+        g.term = max(g.term, g.pre)
+        mode = rng.choice(["tiny", "mid", "mixed", 9, 5000])
+        for _ in range(rng.randrange(3, 12)):
+            r = rng.random()
+            if r < 0.4:
+                g.w(mode, rng.choice([1, 2, 3, 4, 5, 9, 17]))
+            elif r < 0.75 and g.nxt > g.start:
+                pts = cut_points(g)
+                g.strip(rng.choice(pts) if rng.random() < 0.7 else rng.randrange(max(g.start - 1, 0), g.nxt + 2))
+            elif r < 0.85:
+                g.ops.append("reopen")
+            elif r < 0.92:
+                g.bad_w()
+            else:
+                g.read_some()
+        g.check(False)
+        g.check(True)
+        cases.append(Case("geom-%d" % i, g.ops, True, "random"))
     return cases
 
 
@@ -174,6 +198,25 @@ def gen_append(rng, tier):
         g.check(False)
         g.check(True)
         cases.append(Case("hist-%d" % i, g.ops, True, "random"))
+    # small index step: many index entries, reads that start between them, the index area running full
+    for i in range(400 if big else 50):
+        geom = rng.choice([(4, 64), (4, 4096), (8, 128), (3, 100), (2, 4096), (5, 200)])
+        g = G(rng, start=rng.choice([1, 1, 64, 9000]), pre=rng.choice([0, 5]), geom=geom)
+        g.term = max(g.term, g.pre)
+        mode = rng.choice(["tiny", "mid", "mixed", 9, 57, 5000])
+        for _ in range(rng.randrange(3, 10)):
+            r = rng.random()
+            if r < 0.55:
+                g.w(mode, rng.choice([1, 2, 3, 4, 7, 8, 9, 30]))
+            elif r < 0.7:
+                g.ops.append("reopen")
+            elif r < 0.8:
+                g.bad_w()
+            else:
+                g.read_some()
+        g.check(False)
+        g.check(True)
+        cases.append(Case("geom-%d" % i, g.ops, True, "random"))
     # a few histories with a truncation in the middle (C02 quantifies over them too)
     for i in range(60 if big else 10):
         g = G(rng, start=1)
